@@ -295,6 +295,15 @@ _UNARY = ["sqrt", "abs", "absolute", "exp", "log", "sin", "cos", "tan", "round",
 
 def _unary(interp, name, args, kw, st, node):
     x = arrv(args[0])
+    wh_ = kw.get("where")
+    if wh_ is not None and not (wh_.has_const and wh_.const is True) and wh_.kind != "none":
+        # ufunc(x, out=buf, where=m): the entries of buf where m holds are overwritten, the others keep what buf held
+        kw2 = {k: v for k, v in kw.items() if k not in ("where", "out")}
+        out_ = kw.get("out") or (args[1] if len(args) > 1 else None)
+        val = _unary(interp, name, [args[0]], kw2, st, node)
+        prev = out_.term if out_ is not None and out_.kind != "none" else T("uninitialised")
+        res_ = fresh_arr(T("where3", wh_.term, val.term, prev), shape(val), val.labels | wh_.labels)
+        return _handle_out(interp, res_, out_, st, node)
     src = merged_leading(interp, x) if (len(args) == 1 and not [k for k in kw if k != "out"]) else None
     if src is not None:
         # elementwise maps commute with merging the leading axes
